@@ -302,11 +302,12 @@ func (s *Schema) collectUserTypes() {
 		return
 	}
 
-	s.usedUserTypes = collectUserTypes(node)
+	s.usedUserTypes = collectUserTypes(node, s.inner.TypesList())
 }
 
-func collectUserTypes(node internalSchema.Node) []string {
+func collectUserTypes(node internalSchema.Node, types map[string]internalSchema.Type) []string {
 	c := &userTypesCollector{
+		types:            types,
 		alreadyProcessed: map[string]struct{}{},
 	}
 	c.collect(node)
@@ -314,6 +315,10 @@ func collectUserTypes(node internalSchema.Node) []string {
 }
 
 type userTypesCollector struct {
+	// types the types of the schema, the unnamed types made of the rule sets of
+	// the "or" rule are among them.
+	types map[string]internalSchema.Type
+
 	alreadyProcessed map[string]struct{}
 	userTypes        []string
 }
@@ -357,6 +362,13 @@ func (c *userTypesCollector) collectUserTypesFromTypesListConstraint(node intern
 	for _, name := range list.Names() {
 		if name[0] == '@' {
 			c.addType(name)
+			continue
+		}
+
+		// An unnamed type made of a rule set: the rules of the set can reference
+		// user types, e.g. {type: "@foo", nullable: true}.
+		if t, ok := c.types[name]; ok {
+			c.collect(t.Schema().RootNode())
 		}
 	}
 }
